@@ -77,7 +77,7 @@ pub fn run(ctx: &mut Ctx) {
         "in the no-allocator build a fragment that would take the reassembled total above 384 bytes must be rejected and leave no trace".into(),
     ];
     ctx.replay_regressions(check);
-    let n = ctx.tier.pick(12_000, 400_000);
+    let n = ctx.tier.pick(60_000, 400_000);
     ctx.run_proptest("inorder-groups", &STD, n, inorder_group_history(), check);
     // the no-allocator build around its 384-byte capacity: over-long fragments must be rejected and
     // leave the group as it was
